@@ -164,6 +164,11 @@ func c06Body(cfg c06Cfg, sc c06Scn, res *string) func(x *sched.Exec) {
 		e := &c06Exp{x: x, max: cfg.b, faults: cfg.faults, seen: map[string]int{}, lastSeq: map[byte]int{}}
 		bp := NewBatchProcessor(e, WithMaxQueueSize(cfg.q), WithExportMaxBatchSize(cfg.b), WithExportBufferSize(cfg.buf))
 		emittedAt := map[string]int{}
+		// harness clock: one tick per recorded event. Threads run one at a time, so the order of the
+		// ticks is the real order of "End/Emit returned" and "ForceFlush/Shutdown called" -- within one
+		// thread as well (the scheduler's step counter does not move between two harness statements)
+		clk := 0
+		tick := func() int { clk++; return clk }
 		firstShutdownAt, shutdownCalls := -1, 0
 		shutdownFailedBefore := false
 		var results []string
@@ -209,20 +214,20 @@ func c06Body(cfg c06Cfg, sc c06Scn, res *string) func(x *sched.Exec) {
 				id := op[2:]
 				r := c06Record(id)
 				_ = bp.OnEmit(context.Background(), &r)
-				emittedAt[id] = x.Step()
+				emittedAt[id] = tick()
 				// the caller keeps using its record
 				r.SetBody(log.StringValue("mutated"))
 				r.AddAttributes(log.String("k6", "mutated"), log.String("k0", "mutated"))
 			case op == "F":
-				at := x.Step()
+				at := tick()
 				checkFlush("ForceFlush", at, bp.ForceFlush(context.Background()))
 			case op == "Fc":
 				ctx, cancel := vctx.WithCancel(context.Background())
 				sched.Go(cancel)
-				at := x.Step()
+				at := tick()
 				checkFlush("ForceFlush", at, bp.ForceFlush(ctx))
 			case op == "S":
-				at := x.Step()
+				at := tick()
 				if firstShutdownAt < 0 {
 					firstShutdownAt = at
 				}
@@ -241,7 +246,7 @@ func c06Body(cfg c06Cfg, sc c06Scn, res *string) func(x *sched.Exec) {
 			case op == "Sc":
 				ctx, cancel := vctx.WithCancel(context.Background())
 				sched.Go(cancel)
-				at := x.Step()
+				at := tick()
 				if firstShutdownAt < 0 {
 					firstShutdownAt = at
 				}
@@ -296,6 +301,9 @@ func c06Jobs(thorough bool) []c06Job {
 	// a ForceFlush cut short by its context while an earlier batch is still in flight, then more
 	// records and a second ForceFlush: buffers handed to the export goroutine must not be reused
 	L10 := c06Scn{"L10", [][]string{{"M:a1", "M:a2", "M:a3", "Fc", "M:a4", "F"}}, []string{"S"}}
+	// two emitters that each flush their own record: a ForceFlush may not ride on another one that
+	// started (and emptied the queue) before this caller's record was emitted
+	L11 := c06Scn{"L11", [][]string{{"M:a1", "F"}, {"M:b1", "F"}}, []string{"S"}}
 	q2b1, q2b2, q1b1 := c06Cfg{2, 1, 1, false}, c06Cfg{2, 2, 1, false}, c06Cfg{1, 1, 1, false}
 	q3b2, q4b2 := c06Cfg{3, 2, 1, false}, c06Cfg{4, 2, 2, false}
 	q3b2f, q2b1f := c06Cfg{3, 2, 1, true}, c06Cfg{2, 1, 1, true}
@@ -307,6 +315,7 @@ func c06Jobs(thorough bool) []c06Job {
 			{L2, q2b2, 1, 0}, {L2, q1b1, 0, 1},
 			{L8, q3b2f, 0, 2}, {L8, q2b1f, 0, 2}, {L5, q2b2, 1, 1},
 			{L1, q3b2f, 0, 1}, {L4, q2b2, 1, 0}, {L10, q4b2buf1, 1, 0},
+			{L11, q2b1, 1, 0}, {L11, q2b2, 1, 0},
 		}
 	}
 	var js []c06Job
@@ -323,6 +332,7 @@ func c06Jobs(thorough bool) []c06Job {
 			js = append(js, c06Job{sc, c, 1, 1})
 		}
 	}
+	js = append(js, c06Job{L11, q2b1, 2, 0}, c06Job{L11, q2b2, 2, 0}, c06Job{L11, q2b1, 1, 1})
 	js = append(js, c06Job{L8, q3b2f, 1, 2}, c06Job{L8, q2b1f, 1, 2}, c06Job{L10, q4b2buf1, 2, 1}, c06Job{L10, q2b1, 2, 0}, c06Job{L10, q3b2, 1, 1})
 	return js
 }
